@@ -52,7 +52,7 @@ let render (sorted : bool) (fr : fresult) : string =
     (int_of_nat h.h_opens) (int_of_nat h.h_closes) (int_of_nat h.h_late)
 
 let runclass_of (s : string) : runclass =
-  match s with "ok" -> ROk | "canceled" -> RCanceled | "hang" -> RHang | "construct" -> RRefused | _ -> RErr
+  match s with "ok" -> ROk | "canceled" | "deadline" -> RCanceled | "hang" -> RHang | "construct" -> RRefused | _ -> RErr
 
 
 (* a provider cell. [sz] = None: case kind `cell`; Some (maxammosize, sizes of the entries' lines):
@@ -75,6 +75,12 @@ let predict_cell kind pre lim pas n cons cancel rest (sz : (n * n list) option) 
          | _ -> (0, "-", "?", "?")) in
       let obs_ids = if oseq = "-" then [] else List.map int_of_string (String.split_on_char ',' oseq) in
       (* "pre": the context was cancelled before Run was called = cancelled after 0 items *)
+      (* a leading "d": the context ended the way a deadline does: the context error is DeadlineExceeded *)
+      let deadline = String.length cancel > 1 && cancel.[0] = 'd' in
+      let cancel = if deadline then String.sub cancel 1 (String.length cancel - 1) else cancel in
+      let render sorted fr =
+        let s = render sorted fr in
+        if deadline then Str.global_replace (Str.regexp_string " canceled ") " deadline " s else s in
       let cancel_m = if cancel = "-" then None else if cancel = "pre" then Some 0 else Some (int_of_string cancel) in
       let bnd = (match bound cf.limit cf.passes (nat_of_int n) with Some b -> Some (int_of_nat b) | None -> None) in
       (* every model needs at most 3 steps per delivery plus 2n+6 (proved: c08_spec); 50x margin *)
@@ -136,6 +142,29 @@ let predict (c : string) (obs : string) : string * string * bool =
           (if ores = "ok" then ROk else RErr) in
       (pred, verdict (oshots = List.length obs_ids && ok)
          (Printf.sprintf "want %d shots (one per ammo of the cyclic prefix), Engine.Run nil, Engine.Wait returns" bnd), true)
+  | ["enginec"; kind; pre; lim; pas; n; inst; fs; at] ->
+      (* the engine's context is cancelled before Engine.Run (at = 0) / inside shot number at: the shots
+         are a cyclic prefix of at least [at] items (the instances stop within a few shots),
+         Engine.Run returns context.Canceled, Engine.Wait returns *)
+      let fs = if fs = "1" then FsOS else FsMem in
+      let n = int_of_string n and lim = int_of_string lim and pas = int_of_string pas and at = int_of_string at in
+      let es = List.init n (fun i -> { e_tag = nat_of_int i; e_id = nat_of_int i }) in
+      let cf = { limit = nat_of_int lim; passes = nat_of_int pas; chosen = [] } in
+      let k = kind_of kind (pre = "1") in
+      let oshots, oseq, ores, owait =
+        (match split_blank obs with [a; b; c; d] -> (int_of_string a, b, c, d) | _ -> (0, "-", "?", "?")) in
+      let obs_ids = if oseq = "-" then [] else List.map int_of_string (String.split_on_char ',' oseq) in
+      let fr = run_file fs k cf es (Some (nat_of_int oshots)) (nat_of_int (50 * (oshots + n + 2))) in
+      let l = List.sort compare (List.map int_of_nat (ids fr.f_base.delivered)) in
+      let l = List.filteri (fun i _ -> i < oshots) l in
+      let pred = Printf.sprintf "%d %s err:canceled %s" (List.length l) (seq_string l) (if fr.f_base.closed then "1" else "0") in
+      let ok = spec_engine_cancel cf.limit cf.passes es (nat_of_int at) (nat_of_int (int_of_string inst))
+          (List.map nat_of_int obs_ids) (owait = "1")
+          (match ores with "ok" -> ROk | "err:canceled" -> RCanceled | "hang" -> RHang | _ -> RErr) in
+      (* which acquired items were never shot is the scheduler's choice: the prediction takes the observed shots *)
+      let pred = if ok then Printf.sprintf "%d %s err:canceled %s" oshots oseq (if fr.f_base.closed then "1" else "0") else pred in
+      (pred, verdict (oshots = List.length obs_ids && ok)
+         "want shots from the cyclic prefix (all but at most one item per instance), Engine.Run back, Engine.Wait returns", true)
   | _ -> ("unknown-case", "BAD:unknown-case", false)
 
 let () = run_cases predict
